@@ -2,6 +2,7 @@
 handle with the reference model after every action (property C15)."""
 import json
 import pickle
+import signal
 import sys
 
 import numpy as np
@@ -47,7 +48,16 @@ def project(o):
     }
 
 
+class Hang(Exception):
+    pass
+
+
+def _alarm(signum, frame):
+    raise Hang()
+
+
 def main(inp, outp):
+    signal.signal(signal.SIGALRM, _alarm)
     with open(inp) as fh:
         job = json.load(fh)
     res = {"evaluations": 0, "traces": 0, "clauses": {}, "violations": [], "samples": [], "nontrivial": []}
@@ -62,6 +72,21 @@ def main(inp, outp):
                 res["violations"].append({"key": key, "what": what, "data": data})
 
     for beh in job["behaviours"]:
+        signal.alarm(30)
+        try:
+            one(beh, res, clause, kinds)
+        except Hang:
+            clause("every behaviour completes (no conversion runs away)", False, "sv/hang",
+                   f"behaviour did not complete within 30 s: {beh['hist']}", {"hist": beh["hist"]})
+        finally:
+            signal.alarm(0)
+    res["nontrivial"] = sorted(kinds)
+    with open(outp, "w") as fh:
+        json.dump(res, fh, default=str)
+
+
+def one(beh, res, clause, kinds):
+    if True:
         hist = beh["hist"]
         o0 = Orbit(KEP, DATE, "keplerian", "EME2000", "Kepler", name="sat", notes=["a", "b"], counter=0)
         o0.maneuvers = [ImpulsiveMan(DATE, [1.0, 0, 0], frame="TNW")]
@@ -177,9 +202,6 @@ def main(inp, outp):
                 break
         if len(res["samples"]) < 2 and len(hist) >= 3:
             res["samples"].append({"hist": hist})
-    res["nontrivial"] = sorted(kinds)
-    with open(outp, "w") as fh:
-        json.dump(res, fh, default=str)
 
 
 if __name__ == "__main__":
